@@ -13,7 +13,7 @@ from .report import Rule
 from .rules_common import rules_of
 from .rules_common import (MUT, primary, key_matches, showlock, site_text, site_func, site_loc, site_akey,
                            mutation_events, resource_hits, func_nodes)
-from .terms import AnalysisError, show
+from .terms import AnalysisError, show, tag
 
 OBJ_ENTRIES = ["store_object", "tag_object", "delete_object", "delete_if_invalid_object"]
 META_ENTRIES = ["store_metadata", "retrieve_metadata", "delete_metadata", "delete_object"]
@@ -145,6 +145,7 @@ def shared_state_rule(A, rule):
     its attributes (a per-call value parked in `self` is visible to, and overwritten by,
     every concurrent call)"""
     init_like = {f_.qual for f_ in A.p.ctor_funcs(CLS)}
+    class_tables = {k for k, v in A.p.class_attr_assigns(CLS).items() if isinstance(v, (ast.Dict, ast.List, ast.Set))}
 
     def class_expr(e, aliases):
         t = ast.unparse(e)
@@ -166,6 +167,38 @@ def shared_state_rule(A, rule):
             if isinstance(n, ast.Call) and isinstance(n.func, ast.Name) and n.func.id == "setattr" and n.args and class_expr(n.args[0], aliases):
                 rule.ob()
                 rule.fail(f, n, f"`{norm(n)[:70]}` writes an attribute of the class", A.p.loc(f, n))
+    # containers that belong to the CLASS (tables in the class body), reached through the class or a local alias of it, are shared by
+    # every store object and every call of the process: no method - the constructor included - mutates them
+    def class_container(e):
+        if isinstance(e, ast.Attribute) and e.attr in class_tables and (self_attr(e) or class_expr(e.value, set())):
+            return e.attr
+        return None
+
+    for f in [fn for fn in A.p.funcs.values() if fn.cls == CLS]:
+        for n in ast.walk(f.node):
+            tgt, how = None, None
+            if isinstance(n, ast.Call) and isinstance(n.func, ast.Attribute) and n.func.attr in (
+                    "append", "extend", "insert", "remove", "pop", "clear", "update", "add", "discard", "setdefault", "popitem", "sort", "reverse"):
+                tgt, how = n.func.value, f".{n.func.attr}()"
+            elif isinstance(n, (ast.Assign, ast.AugAssign, ast.Delete)):
+                for t in (n.targets if isinstance(n, (ast.Assign, ast.Delete)) else [n.target]):
+                    if isinstance(t, ast.Subscript):
+                        tgt, how = t.value, "item assignment / deletion"
+            if tgt is None:
+                continue
+            a = class_container(tgt) if not self_attr(tgt) else None
+            if a is None and isinstance(tgt, ast.Name):
+                srcs = [x.value for x in ast.walk(f.node) if isinstance(x, ast.Assign) and len(x.targets) == 1 and isinstance(x.targets[0], ast.Name)
+                        and x.targets[0].id == tgt.id]
+                hit = [class_container(v) for v in srcs]
+                if srcs and any(hit):
+                    a = next(h for h in hit if h)
+            if a is not None:
+                rule.ob()
+                rule.inst(f"{f.qual}:{n.lineno} mutates the class-level table {a}")
+                rule.fail(f, n, f"`{norm(n)[:70]}` mutates `{a}`, a container defined in the class body (reached through the class or an alias, not a "
+                          "copy): it is shared by every store object and every concurrent call of the process - one call's values show up in another's "
+                          "result (e.g. in the hashstore.yaml another store is writing)", A.p.loc(f, n))
     # helpers called only while constructing
     for f in [fn for fn in A.p.funcs.values() if fn.cls == CLS]:
         for n in ast.walk(f.node):
@@ -259,7 +292,8 @@ def check_C07(A: Analysis, tier):
         for e in ("tag_object", "delete_object"):
             it = A.api(e, m)
             for ev in it.events:
-                if ev.prim.startswith("file.") and ev.kind in ("READ", "WRITE") and ev.func.name == "_update_refs_file":
+                if ev.prim.startswith("file.") and ev.kind in ("READ", "WRITE") and (ev.func.name == "_update_refs_file" or f"{CLS}._update_refs_file" in ev.ctx) \
+                        and "r" != (ev.extra.get("mode") or "") and any(c_.cls == "CIDREFS" for c_ in primary(ev.classes[0])):
                     rd.ob()
                     rd.inst(f"{ev.func.qual}:{ev.line} {ev.prim}")
                     if ("prim", "FLOCK", 0, "CIDREFS") not in ev.done:
@@ -547,6 +581,29 @@ def check_C12(A: Analysis, tier):
         if "META" in f.message:
             rg12.fail(f.func, f.construct, f.message, f.loc, f.detail)
     rules.append(rg12)
+    rj12 = Rule("C12", "C12.j", "every claim on a metadata document is keyed by the document's NAME as a string - H(pid + format id) where the call "
+                "computes it, the listed file name where it enumerates the directory - at every claim site alike: a key of another kind (a path "
+                "object, a path with directories, another hash) never equals the keys the other sites use, so the sites do not exclude each other", floor=6)
+    seenj = set()
+    for e in ("store_metadata", "delete_metadata", "delete_object"):
+        for m in ("th", "mp"):
+            for r in A.api(e, m).lock_events:
+                if r["cls"] != "metadata_locked_docs" or r["kind"] not in ("acquire", "release", "tryclaim"):
+                    continue
+                k = r["key"]
+                rj12.ob()
+                sig = (r["func"].qual, r["op"].node.lineno, repr(k))
+                if sig in seenj:
+                    continue
+                seenj.add(sig)
+                rj12.inst(f"{e}: {r['kind']} keyed by {show(k)[:60]}")
+                alts = k[1] if tag(k) == "alt" else (k,)
+                bad = [t for t in alts if not (tag(t) == "H" and t[2] is None and tag(t[1]) == "cat") and tag(t) != "listed"]
+                if bad:
+                    rj12.fail(r["func"], r["op"].node, f"the metadata-document claim is keyed by {show(bad[0])[:80]}, not by the document name (a string): "
+                              "store_metadata / delete_metadata(pid, format) key their claims by H(pid + format id), so this site and theirs never wait "
+                              "for each other on the same document", A.p.loc(r["func"], r["op"].node), {"entry": e, "kind": r["kind"]})
+    rules.append(rj12)
     ri12 = Rule("C12", "C12.i", "the delete-all forms work through the whole directory listing: the loop over the listed documents has no `break` and "
                 "no `return` (a document that vanished since the listing - another call removed it - is skipped, the others are still removed)", floor=1)
     listing_loop_rule(A, ri12)
